@@ -1,3 +1,4 @@
+import re
 from itertools import islice
 
 import renew
@@ -98,11 +99,8 @@ class Constant(ModelNode):
                 return None
 
     def dependencies(self):
-        def sub_(x, y):
-            return x.replace(y, " ")
-
-        for symbol in six.reduce(sub_, "()+-", self.value).split():
-            if not symbol.isdigit():
+        for symbol in re.findall(r"[0-9][0-9a-zA-Z]*|[A-Za-z_][A-Za-z0-9_]*", str(self.value)):
+            if not symbol[0].isdigit():
                 yield symbol
 
 
